@@ -48,6 +48,32 @@ NEEDS = {
     "C17-2": "zero-sized event type (VecDeque::capacity() is usize::MAX) and more than `capacity` writes between reads",
     "C18-1": "step_until to a target with no event at the target (final jump synchronises before / without the write)",
     "C19-1": "a multi-threaded simulation dropped on a worker thread of another multi-threaded simulation (ACTIVE_TASKS not unset)",
+    "C11-2": "a ProtoModel that adds sub-models in build() and then fails itself (ModelId read before build() registers the children)",
+    "C18-2": "set_clock_tolerance(..) called before set_clock(..) with a clock lagging more than the tolerance (set_clock rebuilds the clock setup and drops the tolerance)",
+    "C20-1": ">= 2 items queued, a pull that leaves exactly one, then an insert with the survivor's key (pull rewinds next_epoch when len <= 1)",
+    "C20-2": "insert, extract(k), insert again, extract(k) again with a retained copy of the key (extract hands the epoch of the newest entry back)",
+    "C01-r2-1": "two or more actions with the same deadline and origin, more of them than the mailbox capacity (SeqFuture advances before polling)",
+    "C01-r2-2": "Scheduler::schedule_keyed_event on another thread racing with step() (deadline validated before the queue lock)",
+    "C02-r2-1": "port with >= 2 connections, recipient with a full mailbox, the freed slot taken by another sender before the re-poll (spurious wake counted as completion)",
+    "C02-r2-2": "cross-thread race inside Event::wait_until with two full recipients of one broadcast (stale wake of a completed delivery counted twice)",
+    "C03-r2-1": ">= 2 events for the same time and model, more than the mailbox capacity (SeqFuture advances before polling)",
+    "C03-r2-2": "Output with >= 2 accepting connections, an earlier broadcast through it, then a broadcast that meets a full mailbox (slot clearing moved to Drop)",
+    "C04-r2-1": ">= 2 events at the same time for the same model and a mailbox that fills during the burst (SeqFuture advances before polling)",
+    "C04-r2-2": "several lines of one output ending in the same saturated mailbox (take_scheduled(pending_count) in the output broadcaster)",
+    "C05-r2-1": "woken while being polled, then woken again during the immediate re-poll from another worker (post-poll RMW clears the whole wake field)",
+    "C05-r2-2": "two concurrent wakers of an idle task racing within a few instructions (schedule decision taken on a pre-loaded state instead of the RMW result)",
+    "C06-r2-1": "an orphan mailbox saturated by a model: the blocked sender's message is counted before it is pushed (MessageLoss too large by one per blocked sender)",
+    "C06-r2-2": "a bench using add_submodel plus a deadlock in that subtree (observers paired with model names by position; orders differ for hierarchies)",
+    "C07-r2-1": "a model with a periodic self-event that, while handling an occurrence, schedules a one-shot for the time of the next occurrence (re-insertion after run)",
+    "C07-r2-2": "mixing scheduler.schedule(t, source.event(..)) with scheduler.schedule_event(t, .., &addr) for the same model and deadline (origin = target mailbox id)",
+    "C08-r2-1": "a Scheduler::schedule* call from another thread inside the synchronize() window of step() (time published after the lock is released)",
+    "C08-r2-2": "non-keyed periodic request whose first deadline equals the current time (`>=` became `>` in one of five validation sites)",
+    "C09-r2-1": ">= 3 actions due at the same time and origin, two live ones ahead of a cancelled keyed EventSource action (inner loop peeks the raw queue)",
+    "C09-r2-2": "keyed periodic event cancelled by an earlier event of the same model at the same time (generator ignores the key)",
+    "C10-r2-1": ">= 2 same-origin periodic actions on one timestamp and a full target mailbox (SeqFuture advances before polling)",
+    "C10-r2-2": "a cancelled keyed periodic EventSource action preceded by two live global-scheduler actions at the same timestamp (raw peek in the batch loop)",
+    "C11-r2-1": "a model whose build() adds sub-models and that then faults itself (ModelId read before build())",
+    "C11-r2-2": "a Panic or NoRecipient from a model, then any further call (is_terminated set after the match, early returns skip it)",
     "C19-2": "output with >= 2 connections, a full target mailbox, simulation dropped while the broadcast is pending (ManuallyDrop not released)",
 }
 
